@@ -11,7 +11,8 @@ RULE = (
     "(nc-exact) FFNS pair production F2/FL/g1_charm|bottom at points built from exactly representable numbers (x=1/2, Q2=(2m)^2) and one "
     "ulp below/above in x and in Q2; (nc-random) random (x,Q2,m) on both sides of W2=4m2 at a relative distance >= 1e-9, predicate "
     "evaluated in exact rational arithmetic on the float inputs: at/below threshold every row except the heavy quark's own (intrinsic) "
-    "must be exactly 0.0 for every order key, clearly above it the gluon row must be non-zero; every heavy NC RSL recorded by a probe on "
+    "must be exactly 0.0 for every order key, clearly above it the gluon row must be non-zero; at PTO>=2 <kind>_light (pair radiation off "
+    "light quarks) must be bit-identical to the run with 50% heavier quarks at/below threshold; every heavy NC RSL recorded by a probe on "
     "Combiner.collect_elems is evaluated at z beyond the partonic threshold z_max=1/(1+4m2/Q2) and must return exactly 0; (cc) a probe on "
     "conv.convolve_vector must see x(1+m2/Q2) for heavy CC kernels, and all light-quark rows must vanish when that exceeds 1. "
     "Distinct = (mode, kind, flavour, side, PTO); non-trivial = a threshold predicate was decided on a run whose above-threshold partner is non-zero."
@@ -26,7 +27,7 @@ def budget(tier):
 
 def floor(tier):
     return dict(min_conclusive=40 if tier == "quick" else 800, min_nontrivial=20 if tier == "quick" else 60,
-                classes=["at", "below", "above", "x-ulp", "q2-ulp", "cc", "chi>=1", "integrand"], probes=["collect_elems", "convolve_vector", "integrand_evals"], min_compared=500)  # fmt: skip
+                classes=["at", "below", "above", "x-ulp", "q2-ulp", "cc", "chi>=1", "integrand", "missing-channel"], probes=["collect_elems", "convolve_vector", "integrand_evals"], min_compared=500)  # fmt: skip
 
 
 def cases(tier, rng):
@@ -35,7 +36,7 @@ def cases(tier, rng):
     for i in range(n):
         mode = ["nc-exact", "nc-random", "cc"][i % 3]
         flavour = cards.pick(rng, ["charm", "bottom"])
-        pto = int(cards.pick(rng, [1, 1, 2, 2, 3] if tier == "thorough" else [1, 1, 2]))
+        pto = int(cards.pick(rng, [1, 1, 2, 2, 3] if tier == "thorough" else [1, 2, 2]))
         kind = cards.pick(rng, ["F2", "FL", "g1"] if mode != "cc" else ["F2", "FL", "F3"])
         if kind == "g1":
             pto = min(pto, 2)
@@ -108,6 +109,14 @@ def run_case(case):
         cf.Combiner.collect_elems = orig_ce
         conv.convolve_vector = orig_cv
     probes = dict(collect_elems=len(rec), convolve_vector=len(cv), integrand_evals=0)
+    light_pair = None
+    if case["mode"] != "cc" and th["PTODIS"] >= 2 and case["kind"] in ("F2", "FL"):
+        # the heavy pair radiated off a light quark ('missing' channel, O(a_s^2)) lives in <kind>_light: at/below the hadronic
+        # threshold it must vanish, i.e. <kind>_light must not notice a 50% heavier quark (the light kernels are mass independent)
+        lname = f"{case['kind']}_light"
+        obl = cards.observables({lname: pts}, xgrid=g, deg=3, **case["obs"])
+        th_heavier = dict(th, mc=th["mc"] * 1.5, mb=th["mb"] * 1.5, mt=th["mt"] * 1.5)
+        light_pair = (yad.run_yadism(th, obl)[lname], yad.run_yadism(th_heavier, obl)[lname])
     m = th[M2[case["flavour"]]]
     hq = {"charm": 4, "bottom": 5, "top": 6}[case["flavour"]]
     viol, nontrivial, classes = [], set(), set()
@@ -130,6 +139,15 @@ def run_case(case):
                     viol.append(dict(sig=f"pair-threshold|{case['kind']}|{p['cls']}", what=f"{name} {th['FNS']} PTO={th['PTODIS']} m={m!r} x={p['x']!r} Q2={p['Q2']!r}: W2-4m2 = {float(W2-4*m2x):.3g} <= 0 but order {run.key(key)} has a non-zero pair-production entry {val[others][i,j]:.6g} (row pid={cards.PIDS[others[i]]})",
                                      detail=dict(point=p, m=m)))  # fmt: skip
                     break
+            if light_pair is not None:
+                ra, rb = light_pair[0][case["points"].index(p)], light_pair[1][case["points"].index(p)]
+                eq, why = run.same_bits(ra, rb)
+                compared += 1
+                classes.add("missing-channel")
+                if below and not eq:
+                    viol.append(dict(sig=f"pair-threshold-missing|{case['kind']}|{p['cls']}", what=f"{case['kind']}_light {th['FNS']} PTO={th['PTODIS']} m={m!r} x={p['x']!r} Q2={p['Q2']!r}: W2-4m2 = {float(W2-4*m2x):.3g} <= 0 but the result depends on the heavy-quark mass (pair radiation off light quarks contributes below threshold): {why}"))
+                if (not below) and float(W2 / (4 * m2x)) > 1.5 and not eq:
+                    any_above_nonzero = True
             above_clear = (not below) and float(W2 / (4 * m2x)) > 1.05
             if above_clear:
                 nz = any(np.any(np.asarray(v[0])[g21] != 0) for k_, v in res.orders.items() if k_[0] >= 1)
